@@ -82,4 +82,15 @@ func init() {
 		}
 		return "ok " + strconv.Itoa(r.Duration().InMinutes()) + " " + hx(r.ToString())
 	})
+	register("cmp", func(a []string) string {
+		t1, err := klog.NewTimeFromString(argBytes(a[0]))
+		if err != nil {
+			return "err"
+		}
+		t2, err := klog.NewTimeFromString(argBytes(a[1]))
+		if err != nil {
+			return "err"
+		}
+		return "ok " + b01(t1.IsEqualTo(t2)) + " " + b01(t1.IsAfterOrEqual(t2))
+	})
 }
